@@ -776,6 +776,11 @@ func (obj *SparseReal32MatrixJointIterator) Ok() bool {
          !(obj.s2 == nil || obj.s2.GetFloat32() == float32(0))
 }
 func (obj *SparseReal32MatrixJointIterator) Next() {
+  // skip positions where both operands hold a zero
+  for obj.next() && !obj.Ok() {
+  }
+}
+func (obj *SparseReal32MatrixJointIterator) next() bool {
   ok1 := obj.it1.Ok()
   ok2 := obj.it2.Ok()
   obj.s1 = nil
@@ -803,6 +808,7 @@ func (obj *SparseReal32MatrixJointIterator) Next() {
   } else {
     obj.s2 = ConstFloat32(0.0)
   }
+  return ok1 || ok2
 }
 func (obj *SparseReal32MatrixJointIterator) Get() (Scalar, ConstScalar) {
   if obj.s1 == nil {
